@@ -23,16 +23,21 @@
 (* Message ids are publish ordinals 1,2,3,... (the code uses uuid4; the     *)
 (* harness canonicalises).  Time is in integer ticks.                       *)
 (*                                                                          *)
-(* The model reproduces the code's shortcuts that the property does not     *)
-(* forbid: acknowledge()/reject() leave a stale id in the pending deque     *)
-(* (poll() then returns nothing while that id is at the head), reject() of  *)
-(* an already re-queued message appends a duplicate id, a redelivery timer  *)
-(* that fires while the message is in flight delivers it once more.         *)
+(* The model reproduces a shortcut of the code that the property does not   *)
+(* forbid: a redelivery timer that fires while the message is in flight     *)
+(* (because a poll re-delivered it first) delivers it once more.            *)
 (*                                                                          *)
 (* Deviations (constant Dev):                                               *)
-(*  "stale_now_after_yield"  REAL (pinned code): segment 2 stamps the       *)
-(*        delivery event with the instant read before the latency wait, so  *)
-(*        with a non-zero latency the engine discards it.                   *)
+(*  "stale_now_after_yield"  REAL, fixed in the repository (afb04e8):       *)
+(*        segment 2 stamps the delivery event with the instant read before  *)
+(*        the latency wait, so with a non-zero latency the engine discards  *)
+(*        it.                                                               *)
+(*  "settle_leaves_pending_id"  REAL: acknowledge() and reject() assume the *)
+(*        message is in flight.  When it sits in the pending deque (after   *)
+(*        schedule_redelivery() or an earlier requeue) they leave its id    *)
+(*        there: the message is then pending AND acknowledged / dead-       *)
+(*        lettered (or pending twice), and once the stale id reaches the    *)
+(*        head poll() delivers nothing any more.                            *)
 (*  hypothetical ones, used to show that each contract invariant can fail:  *)
 (*  "requeue_at_limit"       reject() re-queues when count <= max           *)
 (*  "poll_lifo"              poll() takes the newest pending message        *)
@@ -135,9 +140,13 @@ Recv(q, i) ==
                  !.owed = IF k = 0 THEN @ ELSE RemoveAt(@, k),
                  !.okRecv = @ /\ k # 0]
 
+\* what acknowledge()/reject() do with an id that still sits in the pending deque
+Unpend(s, m) == IF "settle_leaves_pending_id" \in Dev THEN s ELSE RemoveFirst(s, m)
+
 Ack(q, m) ==
     IF m \notin q.live THEN q
     ELSE [q EXCEPT !.live = IF "ack_keeps_message" \in Dev THEN @ ELSE @ \ {m},
+                   !.pend = Unpend(@, m),
                    !.infl = @ \ {m}, !.rs = @ \ {m}, !.ackd = @ \cup {m}]
 
 DeadLetter(q, m) ==
@@ -149,7 +158,7 @@ LimitOK(q2, m) == m \notin q2.live /\ (q2.cfg.dlq => InSeq(m, q2.dlq))
 
 Rej(q, m, requeue) ==
     IF m \notin q.live THEN q
-    ELSE LET q1 == [q EXCEPT !.infl = @ \ {m}]
+    ELSE LET q1 == [q EXCEPT !.infl = @ \ {m}, !.pend = Unpend(@, m)]
              under == IF "requeue_at_limit" \in Dev THEN q.cnt[m] <= q.cfg.maxr ELSE q.cnt[m] < q.cfg.maxr
              q2 == IF requeue /\ under
                    THEN IF "reject_forgets_requeue" \in Dev THEN q1 ELSE [q1 EXCEPT !.pend = Append(@, m)]
@@ -176,10 +185,13 @@ Urgent(q) == \/ \E i \in 1..Len(q.wire) : q.wire[i].due <= q.clock
 SetClock(q, t) == [q EXCEPT !.clock = t]
 
 \* ---- the contract (C19, message queue clauses) on the model state ----------
-\* every published message is pending, in flight, acknowledged or dead-lettered
-\* (or, when no DLQ is configured, was discarded by a terminal reject as documented)
-Accounted(q) == \A m \in 1..q.npub :
-    InSeq(m, q.pend) \/ m \in q.infl \/ m \in q.ackd \/ InSeq(m, q.dlq) \/ (~q.cfg.dlq /\ m \in q.drop)
+\* every published message is accounted for exactly once: pending, in flight, acknowledged or
+\* dead-lettered (or, when no DLQ is configured, discarded by a terminal reject as documented)
+Occ(s, x) == Cardinality({ i \in 1..Len(s) : s[i] = x })
+B2N(b) == IF b THEN 1 ELSE 0
+Buckets(q, m) == Occ(q.pend, m) + B2N(m \in q.infl) + B2N(m \in q.ackd) + Occ(q.dlq, m)
+                 + B2N(~q.cfg.dlq /\ m \in q.drop)
+Accounted(q) == \A m \in 1..q.npub : Buckets(q, m) = 1
 \* every delivery action is matched by a reception at its delivery instant
 Reached(q) == \A i \in 1..Len(q.owed) : q.owed[i].due >= q.clock
 \* every requested redelivery fires at its instant
